@@ -71,6 +71,79 @@ def sample_species(case):
     return out
 
 
+# ---- rigid transforms of scene-graph nodes, kept as plain 4x4 lists in the description (the oracle never asks the
+# ---- scene graph under test for a transform)
+def mat_mul(a, b):
+    return [[sum(a[i][k] * b[k][j] for k in range(4)) for j in range(4)] for i in range(4)]
+
+
+def mat_rigid_inverse(m):
+    r = [[m[j][i] for j in range(3)] for i in range(3)]
+    t = [-sum(r[i][k] * m[k][3] for k in range(3)) for i in range(3)]
+    return [r[0] + [t[0]], r[1] + [t[1]], r[2] + [t[2]], [0.0, 0.0, 0.0, 1.0]]
+
+
+def mat_point(m, p):
+    return [m[i][0] * p[0] + m[i][1] * p[1] + m[i][2] * p[2] + m[i][3] for i in range(3)]
+
+
+def mat_vector(m, v):
+    return [m[i][0] * v[0] + m[i][1] * v[1] + m[i][2] * v[2] for i in range(3)]
+
+
+def rnd_rigid(rng, shift=0.3, identity=0.0):
+    if rng.random() < identity:
+        return [[1.0, 0, 0, 0], [0, 1.0, 0, 0], [0, 0, 1.0, 0], [0, 0, 0, 1.0]]
+    a, b, c = (rng.uniform(-math.pi, math.pi) * rng.choice([0.0, 1.0, 1.0]) for _ in range(3))
+    ca, sa, cb, sb, cc, sc_ = math.cos(a), math.sin(a), math.cos(b), math.sin(b), math.cos(c), math.sin(c)
+    rz = [[ca, -sa, 0, 0], [sa, ca, 0, 0], [0, 0, 1.0, 0], [0, 0, 0, 1.0]]
+    ry = [[cb, 0, sb, 0], [0, 1.0, 0, 0], [-sb, 0, cb, 0], [0, 0, 0, 1.0]]
+    rx = [[1.0, 0, 0, 0], [0, cc, -sc_, 0], [0, sc_, cc, 0], [0, 0, 0, 1.0]]
+    m = mat_mul(rz, mat_mul(ry, rx))
+    for i in range(3):
+        m[i][3] = rng.uniform(-shift, shift)
+    return m
+
+
+SCENE_NODES = ('G', 'PH', 'BH', 'P', 'B')      # world -> G -> {PH -> plasma(P), BH -> beam(B)}
+
+
+def beam_direction_documented(sc, pt):
+    """Beam.direction as documented: e_x = x (z tan ax)^2 / (sigma^2 + (z tan ax)^2), e_y likewise, e_z = z (z > 0)"""
+    x, y, z = pt
+    tx, ty = math.tan(math.radians(sc['div'][0])), math.tan(math.radians(sc['div'][1]))
+    zx, zy = (z * tx) ** 2, (z * ty) ** 2
+    return [x * zx / (sc['sigma'] ** 2 + zx), y * zy / (sc['sigma'] ** 2 + zy), z]
+
+
+def effective(case):
+    """a case evaluated through the scene (`scene` entry): plasma-space point and beam direction follow from the node
+    transforms of the description; otherwise the case itself"""
+    sc = case.get('scene')
+    if not sc:
+        return case
+    b2p = mat_mul(mat_rigid_inverse(mat_mul(sc['PH'], sc['P'])), mat_mul(sc['BH'], sc['B']))
+    eff = dict(case)
+    eff['plasma_point'] = mat_point(b2p, case['beam_point'])
+    eff['direction'] = mat_vector(b2p, beam_direction_documented(sc, case['beam_point']))
+    eff['observation'] = mat_vector(b2p, sc['odir'])
+    return eff
+
+
+def make_scene(rng, case):
+    """turn a generated case into one that is evaluated through World / BeamMaterial"""
+    for s_ in case['species']:
+        for f in [s_['n'], s_['T']] + s_['v']:
+            f[1:] = [g * 0.3 for g in f[1:]]
+    for f in case['B']:
+        f[1:] = [g * 0.3 for g in f[1:]]
+    case['beam_point'] = [rng.uniform(-0.2, 0.2), rng.uniform(-0.2, 0.2), rng.uniform(0.1, 1.0)]
+    case['scene'] = dict({n: rnd_rigid(rng, identity=0.3) for n in SCENE_NODES},
+                         div=[rng.choice([0.0, rng.uniform(0.1, 2.0)]), rng.choice([0.0, rng.uniform(0.1, 2.0)])],
+                         sigma=rng.uniform(0.02, 0.2), odir=[rng.uniform(-1, 1), rng.uniform(-1, 1), rng.uniform(0.1, 1)])
+    return case
+
+
 def rnd_affine(rng, f0, g=0.3):
     return [f0, rng.uniform(-g, g), rng.uniform(-g, g), rng.uniform(-g, g)]
 
@@ -442,14 +515,31 @@ def build(case):
     from cherab.core.atomic import elements
     k = _classes()
     ad = k['Provider'](case)
-    plasma = Plasma()
+    sc = case.get('scene')
+    nodes = None
+    if sc:
+        from raysect.core import AffineMatrix3D, Node
+        from raysect.optical import World
+        nodes = dict(world=World())
+        nodes['G'] = Node(parent=nodes['world'], transform=AffineMatrix3D(sc['G']))
+        nodes['PH'] = Node(parent=nodes['G'], transform=AffineMatrix3D(sc['PH']))
+        nodes['BH'] = Node(parent=nodes['G'], transform=AffineMatrix3D(sc['BH']))
+        plasma = Plasma(parent=nodes['PH'], transform=AffineMatrix3D(sc['P']))
+    else:
+        plasma = Plasma()
     B = case['B']
     plasma.b_field = lambda x, y, z: Vector3D(*[affine(c, (x, y, z)) for c in B])
     plasma.electron_distribution = k['Dist']([case['electron']['n'], 0, 0, 0], [case['electron']['T'], 0, 0, 0], [[0.0] * 4] * 3)
     plasma.composition = [Species(getattr(elements, s['element']), s['charge'], k['Dist'](s['n'], s['T'], s['v']))
                           for s in case['species']]
     plasma.atomic_data = ad
-    beam = Beam()
+    if sc:
+        beam = Beam(parent=nodes['BH'], transform=AffineMatrix3D(sc['B']))
+        beam.sigma = sc['sigma']
+        beam.divergence_x, beam.divergence_y = sc['div']
+        nodes['P'], nodes['B'] = plasma, beam
+    else:
+        beam = Beam()
     beam.atomic_data = ad
     beam.plasma = plasma
     att = k['Att'](case['nb'])
@@ -459,7 +549,7 @@ def build(case):
     beam.temperature = 10.0
     beam.element = getattr(elements, case['beam_element'])
     beam.length = 5.0
-    return ad, plasma, beam, att
+    return ad, plasma, beam, att, nodes
 
 
 ELEMENT_INDEX = {n: i + 1 for i, n in enumerate(['hydrogen', 'deuterium', 'tritium', 'helium', 'beryllium', 'carbon', 'nitrogen',
@@ -488,7 +578,8 @@ class Scene:
         k = _classes()
         self.kind = case['kind']
         self.attached = attached
-        self.ad, self.plasma, self.beam, self.att = build(case)
+        self.ad, self.plasma, self.beam, self.att, self.nodes = build(case)
+        attached = self.attached = attached or bool(self.nodes)
         if self.kind == 'cx':
             if case.get('receiver_override'):
                 rs = dict(element=case['receiver_override'][0], charge=case['receiver_override'][1])
@@ -548,8 +639,18 @@ class Scene:
         att.calls.clear()
         order = [(s.element.name, s.charge) for s in plasma.composition]
         obs = dict(order=order)
-        bp, pp = Point3D(*case['beam_point']), Point3D(*case['plasma_point'])
-        bdir, odir = Vector3D(*case['direction']), Vector3D(0.3, -0.4, 0.5)
+        eff = effective(case)
+        bp, pp = Point3D(*case['beam_point']), Point3D(*eff['plasma_point'])
+        bdir, odir = Vector3D(*eff['direction']), Vector3D(0.3, -0.4, 0.5)
+        if self.nodes:
+            # through the scene: the beam's material transforms point and directions into plasma space itself
+            sdir = Vector3D(*case['scene']['odir'])
+
+            def emit(bp_, pp_, bdir_, odir_, spectrum_):
+                material = self.beam.children[0].material
+                return material.emission_function(bp_, sdir, spectrum_, self.nodes['world'], None, None, None, None)
+        else:
+            emit = model.emission
         if self.kind == 'cx':
             if case.get('receiver_override'):
                 rs = dict(element=case['receiver_override'][0], charge=case['receiver_override'][1])
@@ -557,7 +658,7 @@ class Scene:
                 rs = case['species'][case['receiver']]
             k['Shape'].log.clear()
             spectrum = Spectrum(400, 800, 4)
-            st, res = call(model.emission, bp, pp, bdir, odir, spectrum)
+            st, res = call(emit, bp, pp, bdir, odir, spectrum)
             obs['status'] = st
             obs['msg'] = res if st != 'ok' else ''
             log = list(k['Shape'].log)
@@ -570,7 +671,7 @@ class Scene:
             obs['spectrum_untouched'] = not any(spectrum.samples)
         else:
             spectrum = Spectrum(400, 900, 1)
-            st, res = call(model.emission, bp, pp, bdir, odir, spectrum)
+            st, res = call(emit, bp, pp, bdir, odir, spectrum)
             obs['status'] = st
             obs['msg'] = res if st != 'ok' else ''
             obs['total'] = float(spectrum.samples[0] * spectrum.delta_wavelength)
@@ -578,8 +679,8 @@ class Scene:
         obs['queries'] = list(ad.queries)
         obs['unknown_queries'] = ad.unknown
         obs['att_calls'] = list(att.calls)
-        obs['zeff'] = call(plasma.z_effective, *case['plasma_point'])
-        obs['ion_density'] = call(plasma.ion_density, *case['plasma_point'])
+        obs['zeff'] = call(plasma.z_effective, *eff['plasma_point'])
+        obs['ion_density'] = call(plasma.ion_density, *eff['plasma_point'])
         obs['species_ids'] = [id(sp_) for sp_ in plasma.composition]
         obs['n_species'] = len(plasma.composition)
         return obs
@@ -595,6 +696,9 @@ class Scene:
                 out.append('model.line')
         out += ['beam.atomic_data', 'beam.atomic_data'] if self.attached else ['model.atomic_data', 'model.atomic_data']
         out += REJECTED      # assignments / calls that must raise and leave everything as it was
+        if self.nodes:
+            # moves of the plasma node, of the beam node, of their private parents and of the common ancestor
+            out = MOVES * 6 + out[:len(out) // 3]
         return out
 
     def apply(self, rng, case, change):
@@ -606,6 +710,14 @@ class Scene:
         sp = case['species']
         if change.startswith('rejected:'):
             return self.apply_rejected(rng, case, change)
+        if change.startswith('move:'):
+            from raysect.core import AffineMatrix3D
+            which = change[len('move:'):]
+            new = copy.deepcopy(case)
+            new['scene'][which] = rnd_rigid(rng)
+            self.nodes[which].transform = AffineMatrix3D(new['scene'][which])
+            new['edge'] = 'after-' + change
+            return new
         ent = [(s, i) for i, s in enumerate(sp)]
         new = None
         if change in ('composition.add:replace-receiver', 'composition.add:replace-species'):
@@ -644,6 +756,11 @@ class Scene:
                 pl.electron_distribution = k['Dist']([2e19, 0, 0, 0], [50.0, 0, 0, 0], [[0.0] * 4] * 3)
                 pl.composition = objs
                 pl.atomic_data = self.ad
+                if self.nodes:
+                    from raysect.core import AffineMatrix3D
+                    pl.parent = self.nodes['PH']
+                    pl.transform = AffineMatrix3D(case['scene']['P'])
+                    self.nodes['P'] = pl
                 self.plasma = pl
                 pl.notifier.add(self._note)
                 if self.attached:
@@ -694,6 +811,8 @@ class Scene:
         new['edge'] = 'after-' + change
         return new
 
+
+MOVES = ['move:P', 'move:P', 'move:B', 'move:PH', 'move:BH', 'move:G']     # P = the plasma node, B = the beam node
 
 REJECTED = ['rejected:plasma.composition=[species..., non-Species]', 'rejected:plasma.composition=[species..., non-Species]',
             'rejected:plasma.composition=[species..., None]', 'rejected:composition.set([species..., non-Species])',
@@ -979,8 +1098,10 @@ def check_property(ctx, case, obs, after=None, root=None):
         if not obs['shape_ok']:
             fail('lineshape-construction', 'line shape built with the wrong line / wavelength / target species')
         for l in lines:
-            if tuple(l[1]) != tuple(case['plasma_point']):
+            if not all(abs(a_ - b_) <= 1e-9 for a_, b_ in zip(l[1], case['plasma_point'])):
                 fail('add_line-point', 'line added at %r, plasma point is %r' % (l[1], case['plasma_point']))
+            if case.get('observation') and not all(abs(a_ - b_) <= 1e-9 for a_, b_ in zip(l[2], case['observation'])):
+                fail('add_line-direction', 'line added for observation direction %r, in plasma space it is %r' % (l[2], case['observation']))
         # every evaluation of every metastable-resolved coefficient is at the prescribed tuple
         for m, calls in obs['cx_calls']:
             for c in calls:
@@ -1198,6 +1319,9 @@ def gen_all(ctx, n):
         elif 0.4 <= u < 0.65:
             # re-evaluation stream: evaluate, change the scene through public API, evaluate again
             case['reeval'] = dict(seed=rng.randrange(1 << 30), attached=rng.random() < 0.5, n=rng.choice([1, 1, 2, 3]))
+            if rng.random() < 0.4:
+                # ... evaluated through the scene (World -> nodes -> Plasma / Beam -> BeamMaterial), with moves of the nodes
+                make_scene(rng, case)
         cases.append(case)
     # only-neutral and single-ion plasmas for the z_effective stream
     for i in range(max(4, n // 50)):
@@ -1211,15 +1335,16 @@ def gen_all(ctx, n):
 
 
 def expand(ctx, case):
-    """the evaluations one generated case stands for: [(state description, observation, change | None, previous obs)]"""
+    """the evaluations one generated case stands for:
+    [(state description, observation, change | None, previous obs | None, observation of a fresh scene | None)]"""
     re = case.get('reeval')
     if not re:
-        return [(case, run_impl(case), None, None)], []
+        return [(case, run_impl(case), None, None, None)], []
     import random
     rng = random.Random(re['seed'])
     sc = Scene(case, re['attached'])
     prev = sc.observe(case)
-    out = [(case, prev, None, None)]
+    out = [(effective(case), prev, None, None, None)]
     cur = case
     for _ in range(re['n']):
         ch = rng.choice(sc.changes(cur))
@@ -1235,9 +1360,32 @@ def expand(ctx, case):
         new.pop('reeval', None)
         cur = new
         obs = sc.observe(cur)
-        out.append((cur, obs, ch, prev if rejected else None))
+        fresh = Scene(cur, True).observe(cur) if ch.startswith('move:') else None
+        out.append((effective(cur), obs, ch, prev if rejected else None, fresh))
         prev = obs
     return out, sc.comp_log
+
+
+def check_fresh(ctx, case, obs, fresh, change, root):
+    """a live scene after a move emits what a scene built from scratch in the final configuration emits"""
+    who = 'BeamCXLine.emission' if case['kind'] == 'cx' else 'BeamEmissionLine.emission'
+
+    def emitted(o):
+        if o['status'] != 'ok':
+            return None
+        return math.fsum(l[0] for l in o['lines']) if case['kind'] == 'cx' else o['total']
+
+    a, b = emitted(obs), emitted(fresh)
+    if a is None or b is None:
+        if (a is None) != (b is None):
+            ctx.fail('C05:%s:after-%s:differs-from-fresh-scene' % (who, change),
+                     'after %s the live scene gives %r (%s), a fresh scene in the same configuration %r (%s)'
+                     % (change, a, obs['status'], b, fresh['status']), dict(case=root, state=case, change=change))
+        return
+    if not close(a, b, 1e-12):
+        ctx.fail('C05:%s:after-%s:differs-from-fresh-scene' % (who, change),
+                 'after %s the live scene emits %r, a fresh scene in the same configuration %r' % (change, a, b),
+                 dict(case=root, state=case, change=change))
 
 
 def corpus_cases():
@@ -1274,8 +1422,8 @@ def process(ctx, cases):
     for root in cases:
         evals, comp_log = expand(ctx, root)
         comps += [(root, rec) for rec in comp_log]
-        for state, obs, change, prev in evals:
-            items.append((root, state, obs, change, prev))
+        for state, obs, change, prev, fresh in evals:
+            items.append((root, state, obs, change, prev, fresh))
             lines.append(model_line(state))
             lines.append(plasma_line(state))
     if not items:
@@ -1296,7 +1444,7 @@ def process(ctx, cases):
     if outs[0] != 'ok':
         ctx.broke('correspondence', 'C05 driver const', outs[0])
     derailed = set()
-    for j, (root, case, obs, change, prev) in enumerate(items):
+    for j, (root, case, obs, change, prev, fresh) in enumerate(items):
         sp = case['species']
         key = (case['kind'], case['edge'], len(sp), sum(1 for s in sp if s['charge'] == 0),
                len(case.get('metas', [])), f2b(case['energy']))
@@ -1325,6 +1473,10 @@ def process(ctx, cases):
         check_property(spy, case, obs, after=change, root=root)
         if prev is not None:
             check_rejected(spy, case, obs, prev, change, root)
+        if fresh is not None:
+            check_fresh(spy, case, obs, fresh, change, root)
+        if case.get('scene'):
+            ctx.count('through-the-scene:%s' % (change or 'first evaluation'))
         check_plasma(spy, case, obs)
         if root.get('reeval') and (spy.hit or len(ctx.broken) > nb_):
             derailed.add(id(root))
